@@ -5,8 +5,17 @@ Put: strict overlap test + alert.Merge; GC/TickGC; ApiGet; SilOn/SilOff).  MC: M
 (contract clauses as invariants / action properties).  Bind: behaviours printed by TLC from
 Gen_Alerts (all short ones + simulated long ones) replayed through the REAL in-process handlers
 (POST/GET /api/v2/alerts, POST/DELETE silence) on a real mem.Alerts whose GC ticker runs under
-virtual time; status codes, GET payload, stored alerts (provider.Get) and GC deletions compared."""
+virtual time; status codes, GET payload, stored alerts (provider.Get) and GC deletions compared.
+
+Equal receive stamps are part of the model: request bodies that hold one label set more than once
+(PostDup) and two requests for a label set at one instant (PostSame).  Meaning: the alerts of a
+body are submissions in body order, each as a single-alert POST at that instant; the later
+submission is the younger alert.  MC_Alerts_dup.cfg: clauses over all such bodies (DupRules,
+SubmissionOrder); MC_Alerts_swap.cfg: with the other reading of the stamp comparison TLC must find
+a history that contradicts SubmissionOrder.  Gen_AlertsDup: every pair of submissions at one
+instant, as one body and as two requests; Gen_Alerts simulations mix both into long histories."""
 import json, os, re, hashlib
+from concurrent.futures import ThreadPoolExecutor
 from lib import vlib
 from lib.vlib import log
 
@@ -61,12 +70,12 @@ def tlc_gen(pid, name, module, cfg, out_path, lib_path, simulate=None, depth=Non
     return r
 
 
-def mc_run(pid, name, module, cfg, timeout, files=None, cfg_path=None, cov_maxtime=2):
+def mc_run(pid, name, module, cfg, timeout, files=None, cfg_path=None, cov_maxtime=2, workers=8):
     """Exhaustive TLC run that must pass.  Vacuity: a second, small run of the same configuration
     (time bound cov_maxtime) with TLC's coverage shows that every enabled disjunct of Next fires
     (coverage on the full run would more than double its time)."""
     src = cfg_path or os.path.join(vlib.SPEC, "mc", cfg)
-    mc = vlib.tlc(pid, name, module, cfg, workers=8, timeout=timeout, files=files)
+    mc = vlib.tlc(pid, name, module, cfg, workers=workers, timeout=timeout, files=files)
     vlib.tlc_must_pass(mc, cfg)
     log("  %s: %d states generated, %d distinct, depth %d, %.1fs" % (cfg, mc.generated, mc.distinct, mc.depth, mc.wall))
     c = re.sub(r"(?m)^  MaxTime = .*$", "  MaxTime = %d" % cov_maxtime, open(src).read())
@@ -117,68 +126,112 @@ def run(tier, v):
     wd = os.path.join(vlib.OUT, PID)
     thorough = tier == "thorough"
 
+    # TLC jobs run side by side (3 at a time)
+    pool = ThreadPoolExecutor(max_workers=3)
     # 1. the design: contract clauses over all submission histories in the bounds
     mc_cfg = "MC_Alerts_thorough.cfg" if thorough else "MC_Alerts.cfg"
-    mc = mc_run(PID, "mc", "MC_Alerts", mc_cfg, timeout=1500 if thorough else 300)
-
-    binp = vlib.go_build_test(PID, "c13")
-
-    # 2. behaviours printed by TLC replayed through the real handlers
-    gens = []
+    f_mc = pool.submit(mc_run, PID, "mc", "MC_Alerts", mc_cfg, 1500 if thorough else 300)
+    # 2. behaviours printed by TLC
     exh_cfg = "Gen_Alerts_exh.cfg"
     files = None
     if thorough:
         files = [derive_cfg(PID, "Gen_Alerts_exh.cfg", "Gen_Alerts_exh4.cfg", HistLen="= 4")]
         exh_cfg = "Gen_Alerts_exh4.cfg"
-    g = tlc_gen(PID, "gen_exh", "Gen_Alerts", exh_cfg, os.path.join(wd, "gen_exh.jsonl"), os.path.join(wd, "lib_exh.json"),
-                timeout=900, files=files)
-    gens.append(("exh", g))
-    g = tlc_gen(PID, "gen_sim", "Gen_Alerts", "Gen_Alerts.cfg", os.path.join(wd, "gen_sim.jsonl"), os.path.join(wd, "lib_sim.json"),
-                simulate="num=%d" % (400 if thorough else 40), depth=45, workers=8, timeout=1200)
-    gens.append(("sim", g))
-    log("  Gen: %d exhaustive short behaviours, %d simulated behaviours of 40 steps" % (gens[0][1].behaviours, gens[1][1].behaviours))
-    if gens[0][1].behaviours < 500 or gens[1][1].behaviours < 100:
+    jp = lambda n: os.path.join(wd, n)
+    f_sim = pool.submit(tlc_gen, PID, "gen_sim", "Gen_Alerts", "Gen_Alerts.cfg", jp("gen_sim.jsonl"), jp("lib_sim.json"),
+                        simulate="num=%d" % (400 if thorough else 40), depth=45, workers=8, timeout=1200)
+    f_exh = pool.submit(tlc_gen, PID, "gen_exh", "Gen_Alerts", exh_cfg, jp("gen_exh.jsonl"), jp("lib_exh.json"),
+                        timeout=900, files=files, workers=4)
+    f_dup = pool.submit(tlc_gen, PID, "gen_dup", "Gen_AlertsDup", "Gen_AlertsDup.cfg", jp("gen_dup.jsonl"), jp("lib_dup.json"),
+                        timeout=300, workers=4)
+    #    equal stamps in the design: all bodies with one label set twice (and same-instant requests)
+    f_mcd = pool.submit(mc_run, PID, "mc_dup", "MC_Alerts", "MC_Alerts_dup.cfg", 300, None, None, 1, 4)
+    #    ... and the clauses decide the family: the other reading of the stamp comparison is refuted
+    f_sw = pool.submit(vlib.tlc, PID, "mc_swap", "MC_Alerts", "MC_Alerts_swap.cfg", workers=2, timeout=300)
+    binp = vlib.go_build_test(PID, "c13")
+
+    # 3. ... replayed through the real handlers, as soon as each set is printed
+    rpool = ThreadPoolExecutor(max_workers=3)
+    def gen_and_replay(name, fut):
+        g = fut.result()
+        r = run_replay(binp, "TestReplay$", jp("gen_%s.jsonl" % name), jp("lib_%s.json" % name), jp("replay_%s.json" % name))
+        return g, r
+    futs = [(n, rpool.submit(gen_and_replay, n, f)) for n, f in (("exh", f_exh), ("dup", f_dup), ("sim", f_sim))]
+    try:
+        gens, results = [], []
+        for name, f in futs:
+            g, r = f.result()
+            gens.append((name, g))
+            results.append(r)
+        mc, mcd, sw = f_mc.result(), f_mcd.result(), f_sw.result()
+    finally:
+        pool.shutdown(wait=True)
+        rpool.shutdown(wait=True)
+    if sw.violated != "SubmissionOrder":
+        raise vlib.Inconclusive("MC_Alerts_swap.cfg: expected TLC to refute SubmissionOrder when the earlier of two same-stamp submissions "
+                                "is taken as the younger one, got %s %s (see %s)" % (sw.violated, sw.error, sw.stdout_path))
+    log("  MC_Alerts_swap.cfg: the other reading of the stamp comparison contradicts SubmissionOrder after %d states (expected)" % sw.generated)
+    nb = dict((n, g.behaviours) for n, g in gens)
+    log("  Gen: %d exhaustive short behaviours, %d same-instant pairs (one body / two requests), %d simulated behaviours of 40 steps" %
+        (nb["exh"], nb["dup"], nb["sim"]))
+    if nb["exh"] < 500 or nb["sim"] < 100 or nb["dup"] < 1000:
         raise vlib.Inconclusive("Gen produced too few behaviours")
-    results = []
-    for name, g in gens:
-        lib = os.path.join(wd, "lib_%s.json" % name)
-        r = run_replay(binp, "TestReplay$", os.path.join(wd, "gen_%s.jsonl" % name), lib, os.path.join(wd, "replay_%s.json" % name))
+    for (name, g), r in zip(gens, results):
+        lib = jp("lib_%s.json" % name)
         log("  replay %s: %d behaviours, %d steps, %d disagreements, counters %s" % (name, r["cases"], r["steps"], r["n_mismatches"], r["counters"]))
         for m in r["mismatches"][:5]:
             v.violation("real API deviates from the alert ingestion contract (Alerts.tla): %s at step %d (%s): specification %s, real code %s" %
                         (m["what"], m["step"], m.get("class"), json.dumps(m.get("want"))[:500], json.dumps(m.get("got"))[:500]),
                         [save_case(wd, m, lib, name)])
-        results.append(r)
 
     cnt = sum_counters(results)
     need = {"mixed_batches": 10, "merged_posts": 10, "gc_deleted": 10, "empty_valued_label_alerts": 10,
-            "invalid_alerts": 10, "suppressed_shown": 10, "gets": 1000}
+            "invalid_alerts": 10, "suppressed_shown": 10, "gets": 1000,
+            # equal stamps: bodies holding one label set more than once, merges taken on the overlap path with
+            # equal stamps (in a body / across two requests), the disjoint path, outcomes the statement decides
+            "bodies_with_duplicates": 500, "same_stamp_merges": 300, "same_instant_request_merges": 100,
+            "same_stamp_replaces": 300, "same_stamp_order_decided_by_statement": 200}
     if not v.violations:
         for k, n in need.items():
             if cnt.get(k, 0) < n:
                 raise vlib.Inconclusive("replay reached too few cases of %s (%d < %d)" % (k, cnt.get(k, 0), n))
+    if cnt.get("stamp_drift", 0):
+        v.notes.append("DRIFT property=%s %d behaviour(s) where, of two overlapping submissions of one label set with the same receive stamp, the real code "
+                       "let the earlier one rule in a point the statement leaves open (explicit end before now+resolve_timeout after a missing endsAt; "
+                       "the timeout flag under an explicit later end): not judged" % (PID, cnt["stamp_drift"]))
     if cnt.get("tie_drift", 0):
         v.notes.append("DRIFT property=%s %d behaviour(s) where the real code differs from Alerts.tla only in the reading of a comparison at equality (not judged; the specification is no longer exact there)" % (PID, cnt["tie_drift"]))
     coverage = {
-        "states": mc.distinct, "transitions": mc.generated,
+        "states": mc.distinct + mcd.distinct, "transitions": mc.generated + mcd.generated,
+        "mc_runs": {mc_cfg: [mc.distinct, mc.generated], "MC_Alerts_dup.cfg": [mcd.distinct, mcd.generated],
+                    "MC_Alerts_swap.cfg": "SubmissionOrder refuted after %d states (expected)" % sw.generated},
         "traces_validated_against_impl": sum(r["cases"] for r in results),
         "replay_steps": sum(r["steps"] for r in results),
         "evaluations": sum(r["cases"] for r in results),
         "distinct_nontrivial": sum(r["nontrivial"] for r in results),
         "counters": cnt,
-        "drift": cnt.get("tie_drift", 0),
-        "rule": "one evaluation = one distinct behaviour printed by TLC (all behaviours of %d steps in the small universe + simulated behaviours of 40 steps) "
-                "replayed on a fresh real instance, every step compared; non-trivial = contains a batch with valid and invalid alerts (400 and the valid ones stored) "
-                "or a submission whose stored start/end differ from its own (a merge kept an earlier start or another end)" % (4 if thorough else 3),
+        "drift": cnt.get("tie_drift", 0) + cnt.get("stamp_drift", 0),
+        "rule": "one evaluation = one distinct behaviour printed by TLC (all behaviours of %d steps in the small universe + every pair of submissions of one "
+                "label set at one instant, as one body and as two requests + simulated behaviours of 40 steps) "
+                "replayed on a fresh real instance, every step compared; non-trivial = contains a batch with valid and invalid alerts (400 and the valid ones stored), "
+                "a submission whose stored start/end differ from its own (a merge kept an earlier start or another end), or a same-stamp pair whose outcome "
+                "the statement decides by submission order" % (4 if thorough else 3),
         "mc_action_coverage": {a: g for a, (d, g) in mc.coverage.items() if a.startswith("Next@")},
-        "samples": [trim_sample(results[1]["samples"][0])] if results[1]["samples"] else [],
+        "samples": [trim_sample(r["samples"][0]) for r in results[1:] if r["samples"]],
         "exhaustive": True,
         "bounds": "MC (%s): label sets L1 (+ empty-valued variant, invalid variants) and L2, startsAt in {missing, now-1, now, now+1}, endsAt in {missing, now-1, now, now+1, now+3}, "
                   "resolve_timeout 2, time 0..%d, batches of 1-2, GC at every instant and between instants; Gen: 3 label sets + 4 posted variants, batches of 1-3, "
-                  "time 0..16, GC period in {1,2,3,5,none}, one silence switched on/off" % (mc_cfg, 5 if thorough else 4),
+                  "time 0..16, GC period in {1,2,3,5,none}, one silence switched on/off; equal stamps: MC_Alerts_dup.cfg all bodies [A, B] of one label set (same start/end ranges) "
+                  "in every reachable state, Gen_AlertsDup all pairs with startsAt in {missing, now-2..now+2}, endsAt in {missing, now-2..now+2, now+4} on an empty store "
+                  "(one body / two requests at one instant), simulations: bodies of 2-3 with a duplicated label set (a third alert anywhere) and repeated requests at one instant" % (mc_cfg, 5 if thorough else 4),
     }
     assumptions = [
-        "no two submissions of one label set and no two writes to the silence at the same instant in the replayed behaviours (exhaustive model checking includes them)",
+        "equal receive stamps (one label set twice in a body; two requests at one virtual instant) are replayed; meaning taken from the statement's 'sequence of "
+        "submissions': body order = submission order, each alert as a single-alert POST at that instant. Judged at equal stamps: after the LAST submission of a label set "
+        "the alert is stored with this stamp, a missing endsAt gives end >= now+resolve_timeout, an explicit past end resolves it, an end that has not passed is not cut short, "
+        "earliest start of overlapping submissions. Left open by the statement (drift, not judged): explicit end < now+resolve_timeout after a same-stamp submission without "
+        "endsAt (that end or now+resolve_timeout), and the timeout flag when a submission without endsAt follows a same-stamp explicit end beyond now+resolve_timeout",
+        "no two writes to the silence at the same instant",
         "request bodies satisfy the OpenAPI schema (an alert without a 'labels' member makes the generated server code reject the whole request with 422 before the handler runs; not covered)",
         "suppression status is bound through one silence only; inhibition (C03) is not part of the instance",
         "receivers: one fixed route tree (default receiver, one continue child, one plain child); routing in general is C07",
